@@ -102,22 +102,24 @@ theorem firstError_ok {l : List Step} : firstError l = .ok () ↔ ∀ s ∈ l, s
 theorem check_ok {c : Bool} {a b : String} : check c a b = .ok () ↔ c = false := by
   cases c <;> simp [check, failWith]
 
-theorem runSteps_ok {d : Step} {f : Bool} {steps : List String}
-    (h : runSteps d f steps = .ok ()) : ∀ s ∈ steps, runStep d f s = .ok () := by
+theorem runSteps_ok {d : Step} {f : Bool} {cb : Callbacks} {steps : List String}
+    (h : runSteps d f cb steps = .ok ()) : ∀ s ∈ steps, runStep d f cb s = .ok () := by
   intro s hs
   exact firstError_ok.mp h _ (List.mem_map.mpr ⟨s, hs, rfl⟩)
 
-theorem runSteps_ok_of_all {d : Step} {f : Bool} {steps : List String}
-    (h : ∀ s ∈ steps, runStep d f s = .ok ()) : runSteps d f steps = .ok () := by
+theorem runSteps_ok_of_all {d : Step} {f : Bool} {cb : Callbacks} {steps : List String}
+    (h : ∀ s ∈ steps, runStep d f cb s = .ok ()) : runSteps d f cb steps = .ok () := by
   apply firstError_ok.mpr
   intro x hx
   obtain ⟨s, hs, rfl⟩ := List.mem_map.mp hx
   exact h s hs
 
-theorem runStep_doFull {d : Step} {f : Bool} (h : runStep d f "doFullHandshake" = .ok ()) : d = .ok () := by
+theorem runStep_doFull {d : Step} {f : Bool} {cb : Callbacks}
+    (h : runStep d f cb "doFullHandshake" = .ok ()) : d = .ok () := by
   simpa [runStep] using h
 
-theorem runStep_fin {d : Step} {f : Bool} (h : runStep d f "readFinished" = .ok ()) : f = true := by
+theorem runStep_fin {d : Step} {f : Bool} {cb : Callbacks}
+    (h : runStep d f cb "readFinished" = .ok ()) : f = true := by
   have : ("readFinished" == "doFullHandshake") = false := by decide
   simp only [runStep, this] at h
   cases f with
@@ -133,6 +135,64 @@ theorem finish_status {r : Step} : (finish r).handshakeStatus = 1 ↔ (finish r)
   cases r with
   | error e => obtain ⟨a, b⟩ := e; simp [finish]
   | ok u => cases u; simp [finish]
+
+/-! ### user callbacks -/
+
+/-- the same view / session / connection with no callback installed -/
+def _root_.Gotlcp.Model.ClientAuthn.FullView.noCallbacks (v : FullView K R P S) : FullView K R P S :=
+  { v with cb := {} }
+def _root_.Gotlcp.Model.ClientAuthn.SessView.noCallbacks (s : SessView) : SessView := { s with cb := {} }
+def _root_.Gotlcp.Model.ClientAuthn.ConnView.noCallbacks (c : ConnView K R P S) : ConnView K R P S :=
+  { session := c.session.map SessView.noCallbacks, full := c.full.noCallbacks }
+
+/-- no callback of `cb` returns an error on this connection -/
+def Callbacks.accept (cb : Callbacks) : Prop := cb.vpc ≠ some false ∧ cb.vc ≠ some false
+
+instance (cb : Callbacks) : Decidable (Callbacks.accept cb) := by unfold Callbacks.accept; infer_instance
+
+theorem callback_ok {b : Option Bool} {st : String} : callback b st = .ok () ↔ b ≠ some false := by
+  rcases b with _ | b
+  · simp [callback]
+  · cases b <;> simp [callback, failWith]
+
+theorem runCallback_none (n : String) : runCallback {} n = .ok () := by
+  unfold runCallback callback
+  split
+  · rfl
+  · split <;> rfl
+
+/-- callbacks that accept are as good as none -/
+theorem runCallback_accept {cb : Callbacks} (h : Callbacks.accept cb) : runCallback cb = runCallback {} := by
+  funext n
+  rw [runCallback_none]
+  unfold runCallback
+  split
+  · exact callback_ok.mpr h.1
+  · split
+    · exact callback_ok.mpr h.2
+    · rfl
+
+theorem runCallback_vpc {cb : Callbacks} (h : runCallback cb "VerifyPeerCertificate" = .ok ()) :
+    cb.vpc ≠ some false := by
+  simp only [runCallback, beq_self_eq_true, if_true] at h
+  exact callback_ok.mp h
+
+theorem runCallback_vc {cb : Callbacks} (h : runCallback cb "VerifyConnection" = .ok ()) :
+    cb.vc ≠ some false := by
+  have : ("VerifyConnection" == "VerifyPeerCertificate") = false := by decide
+  simp only [runCallback, this, beq_self_eq_true, if_true] at h
+  exact callback_ok.mp h
+
+/-- a step that passes with callbacks installed passes without them -/
+theorem runStep_mono {d d' : Step} {f : Bool} {cb : Callbacks} {n : String} (hd : d = .ok () → d' = .ok ())
+    (h : runStep d f cb n = .ok ()) : runStep d' f {} n = .ok () := by
+  unfold runStep at h ⊢
+  split
+  · rename_i hn; rw [if_pos hn] at h; exact hd h
+  · rename_i hn; rw [if_neg hn] at h
+    split
+    · rename_i hm; rw [if_pos hm] at h; exact h
+    · exact runCallback_none n
 
 /-! ### when the pieces succeed -/
 
@@ -160,6 +220,60 @@ theorem verify_ok {p : Params} {skip : Bool} {v : FullView K R P S}
         intro hs
         subst hs
         simpa using h3
+
+/-- … and every callback it consults accepted -/
+theorem verify_ok_callbacks {p : Params} {skip : Bool} {v : FullView K R P S}
+    (h : verifyServerCertificate p skip v = .ok ()) :
+    ∀ n ∈ p.fullCallbacks, runCallback v.cb n = .ok () := by
+  unfold verifyServerCertificate at h
+  split at h
+  · exact absurd h (failWith_ne_ok _ _)
+  · split at h
+    · exact absurd h (failWith_ne_ok _ _)
+    · split at h
+      · exact absurd h (failWith_ne_ok _ _)
+      · split at h
+        · exact absurd h (failWith_ne_ok _ _)
+        · split at h
+          · exact absurd h (failWith_ne_ok _ _)
+          · intro n hn
+            exact firstError_ok.mp h _ (List.mem_map.mpr ⟨n, hn, rfl⟩)
+
+/-- the built-in checks of `verifyServerCertificate` do not look at the callbacks: what passes
+with callbacks installed passes without them … -/
+theorem verify_mono {p : Params} {skip : Bool} {v : FullView K R P S}
+    (h : verifyServerCertificate p skip v = .ok ()) :
+    verifyServerCertificate p skip v.noCallbacks = .ok () := by
+  cases v
+  simp only [FullView.noCallbacks]
+  unfold verifyServerCertificate at h ⊢
+  simp only at h ⊢
+  split
+  · rename_i h1; rw [if_pos h1] at h; exact h
+  · rename_i h1; rw [if_neg h1] at h
+    split
+    · rename_i h2; rw [if_pos h2] at h; exact h
+    · rename_i h2; rw [if_neg h2] at h
+      split
+      · rename_i h3; rw [if_pos h3] at h; exact h
+      · rename_i h3; rw [if_neg h3] at h
+        split
+        · rename_i h4; simp only [h4] at h; exact h
+        · rename_i c0 h4; simp only [h4] at h
+          split
+          · rename_i h5; rw [if_pos h5] at h; exact h
+          · apply firstError_ok.mpr
+            intro x hx
+            obtain ⟨n, _, rfl⟩ := List.mem_map.mp hx
+            exact runCallback_none n
+
+/-- … and with callbacks that accept the function is the same -/
+theorem verify_accept {p : Params} {skip : Bool} {v : FullView K R P S} (h : Callbacks.accept v.cb) :
+    verifyServerCertificate p skip v = verifyServerCertificate p skip v.noCallbacks := by
+  cases v
+  simp only [FullView.noCallbacks] at h ⊢
+  unfold verifyServerCertificate
+  simp only [runCallback_accept h]
 
 theorem pskx_ok {verify : K → Tbs R P → S → Bool} {v : FullView K R P S} {skx : Skx P S}
     (h : processServerKeyExchange verify v skx = .ok ()) :
@@ -250,6 +364,52 @@ theorem full_authenticated {p : Params} (gp : GoodFullBase p) {verify : K → Tb
     have hs : skip = false := by cases skip <;> simp_all
     exact ⟨chainsOK_mem (hch hs) gp.idx0, chainsOK_mem (hch hs) gp.idx1⟩
 
+/-! ### a callback can only add a refusal -/
+
+theorem runSteps_accept {d : Step} {f : Bool} {cb : Callbacks} (h : Callbacks.accept cb) (steps : List String) :
+    runSteps d f cb steps = runSteps d f {} steps := by
+  have : runStep d f cb = runStep d f {} := by
+    funext n; unfold runStep; rw [runCallback_accept h]
+  unfold runSteps; rw [this]
+
+theorem doFull_mono {p : Params} {verify : K → Tbs R P → S → Bool} {skip : Bool} {v : FullView K R P S}
+    (h : doFullHandshake p verify skip v = .ok ()) : doFullHandshake p verify skip v.noCallbacks = .ok () := by
+  unfold doFullHandshake at h ⊢
+  simp only [firstError_ok, List.mem_cons, List.mem_nil_iff, or_false, forall_eq_or_imp, forall_eq] at h ⊢
+  obtain ⟨a, b, c, d, e, g⟩ := h
+  exact ⟨a, verify_mono b, c, d, e, g⟩
+
+theorem doFull_accept {p : Params} {verify : K → Tbs R P → S → Bool} {skip : Bool} {v : FullView K R P S}
+    (h : Callbacks.accept v.cb) : doFullHandshake p verify skip v = doFullHandshake p verify skip v.noCallbacks := by
+  unfold doFullHandshake
+  rw [verify_accept h]
+  rfl
+
+/-- the full branch: what completes with callbacks installed completes without them -/
+theorem full_mono {p : Params} {verify : K → Tbs R P → S → Bool} {skip : Bool} {v : FullView K R P S}
+    (h : (fullHandshake p verify skip v).outcome = .completed) :
+    (fullHandshake p verify skip v.noCallbacks).outcome = .completed := by
+  unfold fullHandshake at h ⊢
+  rw [finish_completed] at h ⊢
+  exact runSteps_ok_of_all fun n hn => runStep_mono doFull_mono (runSteps_ok h n hn)
+
+/-- … and callbacks that accept change nothing at all -/
+theorem full_accept {p : Params} {verify : K → Tbs R P → S → Bool} {skip : Bool} {v : FullView K R P S}
+    (h : Callbacks.accept v.cb) : fullHandshake p verify skip v = fullHandshake p verify skip v.noCallbacks := by
+  unfold fullHandshake
+  rw [doFull_accept h, runSteps_accept h]
+  rfl
+
+/-- a refusing callback among those `verifyServerCertificate` consults is honoured -/
+theorem full_completed_callbacks {p : Params} {verify : K → Tbs R P → S → Bool} {skip : Bool}
+    {v : FullView K R P S} (hd : "doFullHandshake" ∈ p.fullSteps)
+    (h : (fullHandshake p verify skip v).outcome = .completed) :
+    ∀ n ∈ p.fullCallbacks, runCallback v.cb n = .ok () := by
+  have hdf := runStep_doFull (runSteps_ok (finish_completed.mp h) _ hd)
+  unfold doFullHandshake at hdf
+  simp only [firstError_ok, List.mem_cons, List.mem_nil_iff, or_false, forall_eq_or_imp, forall_eq] at hdf
+  exact verify_ok_callbacks hdf.2.1
+
 /-! ### resumption -/
 
 theorem processResumed_ok {p : Params} {s : SessView} (h : processResumed p s = .ok ()) :
@@ -317,6 +477,35 @@ theorem resumed_not_evicted {p : Params} (hf : "readFinished" ∈ p.resumeSteps)
   cases he : readsEvicted p s with
   | false => rfl
   | true => exact absurd (by simp [heldSecret, he, evictedSecret, hd]) (hg hgd)
+
+/-- the resumption branch: what completes with a callback installed completes without it -/
+theorem resumed_mono {p : Params} {s : SessView} (h : (resumedHandshake p s).outcome = .completed) :
+    (resumedHandshake p s.noCallbacks).outcome = .completed := by
+  unfold resumedHandshake at h ⊢
+  rw [finish_completed] at h ⊢
+  simp only [firstError_ok, List.mem_cons, List.mem_nil_iff, or_false, forall_eq_or_imp, forall_eq] at h ⊢
+  exact ⟨h.1, runSteps_ok_of_all fun n hn => runStep_mono id (runSteps_ok h.2 n hn)⟩
+
+theorem resumed_accept {p : Params} {s : SessView} (h : Callbacks.accept s.cb) :
+    resumedHandshake p s = resumedHandshake p s.noCallbacks := by
+  unfold resumedHandshake
+  rw [runSteps_accept h]
+  rfl
+
+/-- a refusing `VerifyConnection` is honoured on the resumption branch when `handshake()` consults it there -/
+theorem resumed_completed_vc {p : Params} (hv : "VerifyConnection" ∈ p.resumeSteps) {s : SessView}
+    (h : (resumedHandshake p s).outcome = .completed) : s.cb.vc ≠ some false := by
+  unfold resumedHandshake at h
+  have h' := finish_completed.mp h
+  simp only [firstError_ok, List.mem_cons, List.mem_nil_iff, or_false, forall_eq_or_imp, forall_eq] at h'
+  have := runSteps_ok h'.2 _ hv
+  have e1 : ("VerifyConnection" == "doFullHandshake") = false := by decide
+  have e2 : ("VerifyConnection" == "readFinished") = false := by decide
+  simp only [runStep, e1, e2] at this
+  exact runCallback_vc this
+
+theorem takesResume_noCallbacks (p : Params) (skip : Bool) (s : SessView) :
+    takesResume p skip s.noCallbacks = takesResume p skip s := rfl
 
 theorem sessChains_mem {idx : List Nat} {s : SessView} (h : sessChains idx s = true) :
     (0 ∈ idx → s.chainSig = true) ∧ (1 ∈ idx → s.chainEnc = true) := by
